@@ -472,11 +472,32 @@ func Drive(id, tier string, seed uint64, replayFile string) int {
 	}
 	os.MkdirAll(replayDir, 0o755)
 	sort.Strings(order)
+	{
+		// interleave the kinds so that the (capped) list of replays shows every kind
+		byKind := map[string][]string{}
+		var kinds []string
+		for _, gk := range order {
+			k := groups[gk].v.Kind
+			if _, ok := byKind[k]; !ok {
+				kinds = append(kinds, k)
+			}
+			byKind[k] = append(byKind[k], gk)
+		}
+		var inter []string
+		for i := 0; len(inter) < len(order); i++ {
+			for _, k := range kinds {
+				if i < len(byKind[k]) {
+					inter = append(inter, byKind[k][i])
+				}
+			}
+		}
+		order = inter
+	}
 	nviol := 0
 	for i, gk := range order {
 		g := groups[gk]
 		nviol++
-		if i >= 25 {
+		if i >= 40 {
 			continue
 		}
 		rp := filepath.Join(replayDir, fmt.Sprintf("%s-%s-%d.json", id, sanitize(g.v.Case.ID), i))
